@@ -18,7 +18,7 @@ RULE = ("every function of the closed scope list (35 functions of tx/props/sat/i
 EXPLANATION = ("effect summaries regenerated from the source are proved safe in the store model (frame theorem); each call on real circuits is "
                "snapshotted before/after, scanned for shared mutable objects, and re-snapshotted after edits of either side")
 SHARD = 128
-HASHSEEDS = {"quick": [0], "thorough": [0, 1]}
+HASHSEEDS = {"quick": [0, 1], "thorough": [0, 1, 2, 3]}
 
 
 def _scope():
@@ -41,14 +41,87 @@ SAT = {"props.influence", "props.avg_sensitivity", "props.sensitivity", "props.s
 
 
 # ---------------------------------------------------------------- generation
+# blackbox types with a d and a q pin; pin sets nested (ff < ffr, ff < ffe, ff < ff2) and not nested (ffr / ffe / ff2)
+BB_TYPES = {"ff": (["clk", "d"], ["q"]), "ffr": (["clk", "d", "rst"], ["q"]), "ffe": (["clk", "d", "en"], ["q"]),
+            "ff2": (["clk", "d"], ["q", "qn"])}
+
+
+def splice_bb(rng, d, inst, bbname):
+    """put an instance of blackbox type `bbname` into the fan-out of a random node (dump level, result stays lint-clean)"""
+    ins, outs = BB_TYPES[bbname]
+    names = [n[0] for n in d["nodes"]]
+    on = rng.choice([n for n in names if "." not in n])
+    q = f"{inst}_qbuf"
+    for n in d["nodes"]:
+        if not n[0].startswith(inst + "."):
+            n[3] = sorted(q if f == on else f for f in n[3])
+    for p in ins:
+        if p == "d":
+            d["nodes"].append([f"{inst}.d", "bb_input", False, [on]])
+        else:
+            if p not in names:
+                d["nodes"].append([p, "input", False, []]); names.append(p)
+            d["nodes"].append([f"{inst}.{p}", "bb_input", False, [p]])
+    for p in outs:
+        d["nodes"].append([f"{inst}.{p}", "bb_output", False, []])
+        buf = q if p == "q" else f"{inst}_{p}buf"
+        d["nodes"].append([buf, "buf", p != "q", [f"{inst}.{p}"]])
+    if not any(q in n[3] for n in d["nodes"]):
+        next(n for n in d["nodes"] if n[0] == q)[2] = True
+    d["bbs"] = d.get("bbs", []) + [[inst, bbname, sorted(ins), sorted(outs)]]
+    return d
+
+
 def gen_circuit(rng, fn, big):
     sat = fn in SAT
     d = lib.rand_dag(rng, rng.randint(1, 3), rng.randint(1, 4 if sat else (9 if big else 6)), max_fanin=3, p_const=0.3)
-    p_bb = 0.85 if fn in NEED_BB else 0.2 if fn in NO_BB else 0.5
+    p_bb = 0.9 if fn in NEED_BB else 0.2 if fn in NO_BB else 0.5
     if rng.random() < p_bb:
-        d = lib.add_flop(rng, d, unconnected=rng.random() < 0.2)
+        r = rng.random()
+        if r < 0.3:
+            d = lib.add_flop(rng, d)
+        else:
+            # one to three instances of one to three blackbox types (two instances may share a type = share the BlackBox object)
+            k = 1 if r < 0.45 else 2 if r < 0.85 else 3
+            types = [rng.choice(list(BB_TYPES)) for _ in range(k)]
+            if k >= 2 and rng.random() < 0.6:
+                types[1] = rng.choice([t for t in BB_TYPES if t != types[0]])
+            for i, t in enumerate(types):
+                d = splice_bb(rng, d, f"u{i}", t)
     d["name"] = rng.choice(["top", "m1", "circuit"])
+    # how the argument is built: node by node with every attribute (lib.build_circuit), on a user graph whose non-output
+    # nodes carry no `output` attribute (Circuit(graph=g)), or by writing Verilog and reading it back with the fast reader
+    r = rng.random()
+    d["via"] = "attrs" if r < 0.5 else "graph" if r < 0.85 else "fast"
     return d
+
+
+def build(d):
+    """the argument circuit of a case"""
+    import circuitgraph as cg
+    via = d.get("via", "attrs")
+    shared = {}
+    def bb_of(bn, ins, outs):
+        key = (bn, tuple(ins), tuple(outs))
+        if key not in shared:
+            shared[key] = cg.BlackBox(bn, ins, outs)     # instances of one type share one BlackBox object, as with cg.generic_flop
+        return shared[key]
+    if via == "graph":
+        dd = dict(d, nodes=[[n, t, (True if o else None), fi] for n, t, o, fi in d["nodes"]])
+        c0 = lib.build_circuit(dd)
+        c = cg.Circuit(name=d.get("name"), graph=c0.graph)
+    else:
+        c = lib.build_circuit(d)
+    c.blackboxes = {inst: bb_of(bn, ins, outs) for inst, bn, ins, outs in d.get("bbs", [])}
+    if via == "fast":
+        try:
+            text = cg.io.circuit_to_verilog(lib.build_circuit(d))
+            c2 = cg.io.verilog_to_circuit(text, d.get("name"), blackboxes=list(shared.values()), fast=True)
+            if lib.canon(lib.dump_circuit(c2)) == lib.canon(lib.dump_circuit(c)):
+                return c2
+        except Exception:      # noqa: BLE001  (the fast reader is not the subject here; fall back to the direct build)
+            pass
+    return c
 
 
 def gen_case(rng, fn, tier):
@@ -68,7 +141,7 @@ def gen_case(rng, fn, tier):
 
 
 def generate(rng, tier):
-    per = 4 if tier == "quick" else 30
+    per = 4 if tier == "quick" else 20
     return [gen_case(rng, fn, tier) for fn in SCOPE for _ in range(per)]
 
 
@@ -152,7 +225,7 @@ def _call(cg, fn, c, case, others, tmp):
     if fn == "Circuit.kcuts": return c.kcuts(n, k)
     if fn == "Circuit.topo_sort": return _consume(c.topo_sort())
     if fn == "Circuit.add_subcircuit!":
-        host = lib.build_circuit(case["host"])
+        host = build(case["host"])
         conns = {x: rng_pick(case, host) for x in sorted(c.inputs())[:1]} if flag else None
         host.add_subcircuit(c, "sub", connections=conns, strip_io=(k != 3))
         return host                      # the host plays the role of the "result": it must share nothing with the argument
@@ -191,7 +264,8 @@ def _deep(c):
     return json.dumps([[(n, sorted((str(k), repr(v)) for k, v in a.items())) for n, a in g._node.items()],
                        sorted((u, v, sorted((str(k), repr(x)) for k, x in a.items())) for u, v, a in g.edges(data=True)),
                        sorted((str(k), repr(v)) for k, v in g.graph.items()),
-                       [(i, b.name, sorted(b.inputs()), sorted(b.outputs())) for i, b in c.blackboxes.items()], c.name])
+                       [(i, b.name, sorted(b.inputs()), sorted(b.outputs()), id(b), id(b.input_set), id(b.output_set))
+                        for i, b in c.blackboxes.items()], c.name])
 
 
 def _circuits_in(x, cg, depth=0, seen=None):
@@ -249,10 +323,10 @@ def impl(case):
     import circuitgraph as cg
     fn = case["fn"]
     rng = random.Random(case["eseed"])
-    c = lib.build_circuit(case["circuit"])
+    c = build(case["circuit"])
     args = [c]
     if case.get("second") == "other":
-        args.append(lib.build_circuit(case["circuit2"]))
+        args.append(build(case["circuit2"]))
     tmp = tempfile.mkdtemp(prefix="c19_")
     cwd = os.getcwd()
     before = [lib.dump_circuit(a) for a in args]
@@ -290,6 +364,16 @@ def impl(case):
                 if id(o) in mine:
                     anomalies.append("shared-" + k)
         del keep
+    # BlackBox objects are shared by design (dict.copy() is shallow); a *different* BlackBox that uses the same set object is not
+    for a in args:
+        abbs = list(a.blackboxes.values())
+        for r in results:
+            for rb in r.blackboxes.values():
+                if any(rb is ab for ab in abbs):
+                    continue
+                for ab in abbs:
+                    if any(x is y for x in (rb.input_set, rb.output_set) for y in (ab.input_set, ab.output_set)):
+                        anomalies.append("shared-pin-set")
     anomalies = sorted(set(anomalies))
     shown = live[:4]
     for j, r in enumerate(live):
